@@ -1,4 +1,6 @@
 import IdModel.Bitmap.Model
+import IdModel.Bitmap.Lookup
+import IdModel.Doc.Lemmas
 import IdModel.Core.B64Lemmas
 /-!
 # C06 — revocation bitmaps round-trip and revoke exactly the requested indices
@@ -286,6 +288,79 @@ theorem status_revoked_iff (sc : StatusCheck) (st : StatusView) (issuerFound : B
 theorem status_relaxed (st : Option StatusView) (issuerFound : Bool) (service : Option (List Nat)) :
     checkStatus .skipAll st issuerFound service = .ok := by
   unfold checkStatus; rfl
+
+/-! ## the service consulted is the one the status entry names by its FULL id -/
+
+section Lookup
+open IdModel.Doc
+
+/-- the bitmap that answers is the content of a service OF THE ISSUER DOCUMENT whose id has the DID and the fragment of
+the status entry's id — a service of another DID with the same fragment never answers — and it is the first such
+service -/
+theorem lookup_by_full_id (doc : Doc) (sets : Nat → Option (List Nat)) (sid : Id) (s : List Nat)
+    (h : resolveBitmapService doc sets sid = some s) :
+    ∃ svc ∈ doc.service, svc.id.did = sid.did ∧ svc.id.frag = sid.frag ∧ sid.frag ≠ none ∧ sets svc.body = some s := by
+  unfold resolveBitmapService at h
+  cases hr : resolveService doc (Query.ofId sid) with
+  | none => simp [hr] at h
+  | some svc =>
+    simp only [hr] at h
+    obtain ⟨hm, hq⟩ := query_some_mem Service.id doc.service (Query.ofId sid) svc hr
+    refine ⟨svc, hm, ?_⟩
+    unfold Query.matches Query.ofId at hq
+    simp only [Bool.and_eq_true, beq_iff_eq] at hq
+    obtain ⟨hd, hf⟩ := hq
+    cases hsf : sid.frag with
+    | none => simp [hsf] at hf
+    | some a =>
+      cases hvf : svc.id.frag with
+      | none => simp [hsf, hvf] at hf
+      | some b =>
+        simp only [hsf, hvf, beq_iff_eq] at hf
+        exact ⟨hd.symm, by rw [hf], by simp, h⟩
+
+/-- no service with that DID and fragment: the lookup fails, and a well-formed entry is reported as a service-lookup
+error — never answered from another service -/
+theorem lookup_none (doc : Doc) (sets : Nat → Option (List Nat)) (sid : Id)
+    (h : ∀ svc ∈ doc.service, ¬ (svc.id.did = sid.did ∧ svc.id.frag = sid.frag)) :
+    resolveBitmapService doc sets sid = none := by
+  unfold resolveBitmapService
+  cases hr : resolveService doc (Query.ofId sid) with
+  | none => rfl
+  | some svc =>
+    exfalso
+    obtain ⟨hm, hq⟩ := query_some_mem Service.id doc.service (Query.ofId sid) svc hr
+    apply h svc hm
+    unfold Query.matches Query.ofId at hq
+    simp only [Bool.and_eq_true, beq_iff_eq] at hq
+    obtain ⟨hd, hf⟩ := hq
+    refine ⟨hd.symm, ?_⟩
+    cases hsf : sid.frag with
+    | none => simp [hsf] at hf
+    | some a =>
+      cases hvf : svc.id.frag with
+      | none => simp [hsf, hvf] at hf
+      | some b => simp only [hsf, hvf, beq_iff_eq] at hf; rw [hf]
+
+/-- **revoked exactly when a member — of the service the entry names**: with a well-formed entry and the issuer found,
+the report is `revoked` iff the index is in the set of the first service of the issuer document with the entry's DID
+and fragment -/
+theorem status_doc_revoked_iff (sc : StatusCheck) (st : StatusView) (doc : Doc) (sets : Nat → Option (List Nat))
+    (sid : Id) (n : Nat) (hsc : sc ≠ .skipAll) (hty : st.typeIsBitmap = true) (hidx : statusIndex st = some n)
+    (hid : st.idIsDidUrl = true) :
+    checkStatusDoc sc (some st) true doc sets sid = .revoked ↔
+      ∃ s, resolveBitmapService doc sets sid = some s ∧ n ∈ s := by
+  unfold checkStatusDoc checkStatus
+  have h1 : (sc == StatusCheck.skipAll) = false := by cases sc <;> simp_all
+  simp only [h1, Bool.false_eq_true, ↓reduceIte, hty, Bool.not_true, hidx, Bool.not_false, hid]
+  cases hr : resolveBitmapService doc sets sid with
+  | none => simp
+  | some s =>
+    by_cases hm : n ∈ s
+    · simp [hm]
+    · simp [hm]
+
+end Lookup
 
 /-! ## non-vacuity -/
 
